@@ -183,7 +183,7 @@ func c09Scoped(e *Env) {
 			n++
 			ok = false
 			for _, g := range precedingGuards(par, call) {
-				if found, pol := condCalls(info, g.Cond, func(f *types.Func) bool { return esp.Is(f, pkgApp, "RequestContext", "IsExiled") }); found && pol > 0 {
+				if found, pol, _ := condCalls(info, g.Cond, func(f *types.Func) bool { return esp.Is(f, pkgApp, "RequestContext", "IsExiled") }); found && pol > 0 {
 					if _, isRet := g.Body.List[len(g.Body.List)-1].(*ast.ReturnStmt); isRet {
 						ok = true
 					}
